@@ -336,6 +336,88 @@ def clientFirstRead (stream : List Bytes) : ReadRes :=
   | .dialError m => .dialError m
   | .failed p => .error p
 
+/-! ### a configured RequestHook, and every response header of one request -/
+
+inductive Hook where
+  /-- `config.RequestHook == nil` -/
+  | absent
+  /-- configured, `Check` returns false: the request is handled as if there were no hook -/
+  | declines
+  /-- configured, `Check` returns true (outside the property as far as dial errors go) -/
+  | intercepts
+  deriving DecidableEq, Repr
+
+/-- "RequestHook enabled" -/
+def hookMsg : Bytes :=
+  [byte 82, byte 101, byte 113, byte 117, byte 101, byte 115, byte 116, byte 72, byte 111, byte 111, byte 107,
+   byte 32, byte 101, byte 110, byte 97, byte 98, byte 108, byte 101, byte 100]
+
+/-- every TCPResponse handleTCPRequest writes for ONE request, in the order of the code:
+    `if hook != nil { hooked = Check(); if hooked { write ok } }`, the dial, then
+    `if !hooked { write }` in either branch; and whether the relay is entered. -/
+def serverResponses (v : Variant) (hook : Hook) (dial : Option Bytes) (pad1 pad2 : Bytes) : List Bytes × Bool :=
+  let hooked := decide (hook = .intercepts)
+  let r1 := if hooked then [Frame.writeResponse true hookMsg pad1] else []
+  let r2 := if !hooked then [(serverRespond v dial pad2).1] else []
+  (r1 ++ r2, dial.isNone)
+
+/-! ### the client's conn over several Reads (fast open: `Established` is set only after a
+    response has been read successfully) -/
+
+structure TcpConn where
+  established : Bool
+  /-- what the transport still delivers, in chunks -/
+  stream : List Bytes
+  deriving DecidableEq, Repr
+
+/-- what the environment does to one `Read`: it times out before anything of the stream is
+    consumed (read deadline shorter than the server's dial), or it proceeds -/
+inductive RdEv where
+  | timeout
+  | go
+  deriving DecidableEq, Repr
+
+inductive RdOut where
+  | data (d : Bytes)
+  | eof
+  | dialError (msg : Bytes)
+  | error (proto : Bool)
+  | timeout
+  deriving DecidableEq, Repr
+
+/-- the conn `Client.TCP` hands out (none: it returned an error instead) -/
+def connAfterTCP (fastOpen : Bool) (stream : List Bytes) : Option TcpConn :=
+  if fastOpen then some ⟨false, stream⟩
+  else match clientOpen stream with
+    | .established rest => some ⟨true, rest⟩
+    | _ => none
+
+/-- `Orig.Read` -/
+def nextChunk : List Bytes → RdOut × List Bytes
+  | [] => (.eof, [])
+  | c :: cs => (.data c, cs)
+
+/-- `tcpConn.Read` -/
+def connRead (c : TcpConn) : RdEv → RdOut × TcpConn
+  | .timeout => (.timeout, c)
+  | .go =>
+    if c.established then ((nextChunk c.stream).1, { c with stream := (nextChunk c.stream).2 })
+    else match Frame.readResponse Frame.chunked c.stream with
+      | .ok (true, _) rest => ((nextChunk rest).1, ⟨true, (nextChunk rest).2⟩)
+      | .ok (false, msg) rest => (.dialError msg, { c with stream := rest })
+      | .eof => (.error false, { c with stream := [] })
+      | .proto s => (.error true, { c with stream := s })
+
+def appReads : TcpConn → List RdEv → List RdOut
+  | _, [] => []
+  | c, e :: es => (connRead c e).1 :: appReads (connRead c e).2 es
+
+/-- the bytes the application has been handed -/
+def dataOf : List RdOut → Bytes
+  | [] => []
+  | .data d :: r => d ++ dataOf r
+  | _ :: r => dataOf r
+
 /-! ### what an observer of a running relay can see, and the relations the theorems give -/
 
 /-- the logger calls in a trace, newest first -/
